@@ -138,6 +138,8 @@ class Env(object):
         self.connects = 0
         self.write_calls = 0
         self.frames_seen = 0
+        self.who = None
+        self.open_by = {}
         self.mutated = False
         self.policy_flip = 0
 
